@@ -37,7 +37,10 @@ Definition is_float_value (v : value) : bool := match v with VFloat _ => true | 
 Definition arr_rule_ok (r : arr_rules) (vs : list value) : bool :=
   within_b (ar_min r) (ar_max r) (count vs) && (if is_true (ar_uniq r) then distinct vs else true).
 
+(* full name of the option with number n (n >= 1), of the explicit zero option (n = 0) *)
 Definition option_name (env : enum_env) (n : Z) : option str :=
+  if n =? 0 then match ee_zero env with Some z => Some (with_prefix env z) | None => None end
+  else
   if (1 <=? n) && (n <=? Z.of_nat (length (ee_options env)))
   then match nth_error (ee_options env) (Z.to_nat (n - 1)) with
        | Some o => Some (with_prefix env o)
